@@ -287,9 +287,14 @@ def core_profiles(extra=None, n=10, steps=40):
          dict(n=n, steps=steps + 10, backend="sql", regime="causal", profile="members", groups=2),
          dict(n=12, backend="mixed", profile="fork"),
          dict(n=8, backend="mixed", profile="props"),
-         dict(n=6, backend="mixed", profile="rejoin")]
+         dict(n=6, backend="mixed", profile="rejoin"),
+         # unrestricted regime: events are handed over in any order, also ahead of the commits they depend on
+         dict(n=5, steps=60, backend="mixed", regime="free", profile="core"),
+         dict(n=5, steps=70, backend="mixed", regime="free", profile="members", retention=3)]
     t = [dict(n=60, backend=["mem", "sql", "mixed"][i % 3], profile="fork", retention=[5, 3, 6][i % 3]) for i in range(3)]
     t += [dict(n=60, backend=["mixed", "sql", "mem"][i % 3], profile="rejoin", retention=[5, 2, 3][i % 3]) for i in range(3)]
+    t += [dict(n=40, steps=70, backend=["mixed", "sql", "mem"][i % 3], regime="free", profile=["core", "members"][i % 2],
+               retention=[5, 3, 2][i % 3]) for i in range(4)]
     t += [dict(n=60, backend=["mem", "sql", "mixed"][i % 3], profile="props", restarts=i % 2, retention=[5, 2, 3][i % 3]) for i in range(3)]
     for i in range(10):
         t.append(dict(n=50, steps=60, backend=["mem", "sql", "mixed"][i % 3], regime="causal",
